@@ -197,9 +197,9 @@ func fieldsReset(c *Ctx, fn *ssa.Function, obj ssa.Value, named *types.Named, be
 
 func checkC08(c *Ctx) {
 	c.Rule("R8.1", "reset completeness: every mutable field of a pooled struct is neutralised before Put or reassigned after Get", 7)
-	c.Rule("R8.2", "Pool.Get/Put are called only from the designated wrappers", 14)
-	c.Rule("R8.3", "no use of an object, and no escaping reference into its storage, after it was released", 10)
-	c.Rule("R8.4", "a buffer is released at most once: field cleared (or holder recycled) after Free; EncodeEntry's buffer freed exactly once after the write", 4)
+	c.Rule("R8.2", "Pool.Get/Put are called only from the designated wrappers", 9)
+	c.Rule("R8.3", "no use of an object, and no escaping reference into its storage, after it was released", 8)
+	c.Rule("R8.4", "a buffer is released at most once: field cleared (or holder recycled) after Free; EncodeEntry's buffer freed exactly once after the write", 3)
 	c.Rule("R8.5", "pooled-buffer fields are only assigned nil or a buffer fresh from the pool (exclusive ownership)", 2)
 
 	pools := discoverPools(c)
